@@ -752,6 +752,12 @@ def _argwhere(a):
     return _np.argwhere(_concretise_bools(a))
 
 
+def _flatnonzero(a):
+    # indices as an (all-concrete) SymArray so that a later symbolic mask can index them
+    idx = _np.flatnonzero(_concretise_bools(_post(_np.frompyfunc(lambda v: (v != 0) if isinstance(v, SV) else v, 1, 1)(_objify(_raw(a))))))
+    return _np.asarray(idx, dtype=object).view(SymArray)
+
+
 def _nonzero(a):
     return _np.nonzero(_concretise_bools(_post(_np.frompyfunc(lambda v: (v != 0) if isinstance(v, SV) else v, 1, 1)(_objify(_raw(a))))))
 
@@ -867,7 +873,7 @@ def _average(a, axis=None, weights=None):
 _FUNCS = {
     "delete": _delete, "argwhere": _argwhere, "unique": _unique, "round": _round, "around": _round,
     "any": _any, "all": _all, "sort": _sort, "argsort": _argsort, "argmin": _argmin, "argmax": _argmax,
-    "isreal": _isreal, "nonzero": _nonzero, "where": _where, "percentile": _percentile, "cumsum": _cumsum,
+    "isreal": _isreal, "nonzero": _nonzero, "flatnonzero": _flatnonzero, "where": _where, "percentile": _percentile, "cumsum": _cumsum,
     "amax": lambda a, axis=None, **kw: _reduce("maximum", _raw(a), axis),
     "amin": lambda a, axis=None, **kw: _reduce("minimum", _raw(a), axis),
     "max": lambda a, axis=None, **kw: _reduce("maximum", _raw(a), axis),
